@@ -290,6 +290,10 @@ def _p1_rule(spec, idx, urls):
     decls = [d for d in (d1, d2) if d]
     if ctx == 'style':
         return ['style', sel, decls]
+    if ctx == 'style3':
+        # the fallback idiom with another declaration in between: name A, name B, name A again - document order is A B A
+        d3 = _decl(f1, 0, urls)
+        return ['style', sel, decls + [d3]]
     if ctx == 'media':
         return ['media', 'screen', [['style', sel, decls]]]
     if ctx == 'page':
@@ -305,6 +309,7 @@ def p1_rule_menu(tier):
             menu += [[ctx, f, 'absent'] for f in FF_FORMS]
         else:
             menu += [[ctx, a, b] for a in forms for b in forms]
+    menu += [['style3', a, b] for a in ('single', 'multi', 'short') for b in ('single', 'multi')]
     return menu
 
 
